@@ -135,9 +135,9 @@ func TestModelExample(t *testing.T) {
 			t.Errorf("%v: %s %s, want reject %s", b.blk, c, r, b.reason)
 		}
 	}
-	// reversed code-space range: neither valid nor a fault
+	// reversed code-space range: a reversed range like any other (rejected since fix 15a96e6)
 	f = cm.File{CMaps: []cm.CMap{{Name: "N", Blocks: []cm.Block{{Kind: cm.CodeSpaceRange, Declared: -1, Entries: []cm.Entry{{Lo: cm.Str(2), Hi: cm.Str(1)}}}}}}}
-	if c, _ := f.Status(); c != cm.Unspecified {
+	if c, _ := f.Status(); c != cm.Reject {
 		t.Error("reversed code-space range classified as", c)
 	}
 }
